@@ -1,3 +1,60 @@
-From HV Require Import Base.Prelude.
-Theorem C10_placeholder : True. Proof. exact I. Qed.
-Print Assumptions C10_placeholder.
+(* C10 - reopening preserves everything not modified (store-model part).
+   reach bp ba sb h: state after CreateForWrite (superblock version sb) and history h; bp, ba: the error-path
+   patches e5d916a (link pre-check) / 8199862 (attribute-info check) present or not (theorems hold for all four). *)
+From HV Require Import Base.Prelude Model.Store Proofs.Store Proofs.StoreOps Proofs.StoreInv Proofs.StoreProps.
+Local Open Scope N_scope.
+
+(* close + OpenForWrite: all extents stay valid and disjoint, the new allocator starts at or above every one of
+   them, so nothing allocated afterwards intersects an existing extent *)
+Theorem C10_reopen_preserves : forall bp ba sb h,
+  let s := reach bp ba sb h in let s1 := fst (step s OpReopen) in
+  ovf (st s1) = false ->
+  (NoOverlap (exts (st s1)) /\ Forall (fun e => ext_end e <= next (al (st s1))) (exts (st s1))) /\
+  incl (exts (st s)) (exts (st s1)) /\
+  forall o k n e s2, alloc_ext (st s1) o k n = Some (e, s2) -> ovf s2 = false ->
+    forall e', In e' (exts (st s)) -> edisj e e'.
+Proof. exact C10_reopen_preserves_l. Qed.
+Print Assumptions C10_reopen_preserves.
+
+(* without the extension of the file in Close the reserved tail of the last header is allocated again *)
+Theorem C10_refuted_without_extend :
+  let s := run (init cfg_no_extend 2) hist_noext in let o := OpMkGroup 0 1 false in
+  ~ NoOverlap (exts (st (fst (step s o)))) /\
+  exists e' w, In e' (exts (st s)) /\ targets s o (owner e') (kind_of e') = false /\
+               In w (wlog (st (fst (step s o)))) /\ ~ (fst w + snd w <= start e' \/ ext_end e' <= fst w).
+Proof. exact C10_refuted_without_extend_l. Qed.
+Print Assumptions C10_refuted_without_extend.
+
+(* a session all of whose calls issue no store command writes nothing and leaves size, allocator and extents as they were *)
+Theorem C10_noop_session : forall bp ba sb h0 h,
+  let s := reach bp ba sb h0 in
+  closed s = true -> ovf (st s) = false ->
+  all_quiet s (OpReopen :: h ++ [OpClose]) ->
+  let s' := run s (OpReopen :: h ++ [OpClose]) in
+  fsize (st s') = fsize (st s) /\ exts (st s') = exts (st s) /\
+  next (al (st s')) = next (al (st s)) /\ run_writes s (OpReopen :: h ++ [OpClose]) = [].
+Proof. exact C10_noop_session_l. Qed.
+Print Assumptions C10_noop_session.
+
+(* calls that are quiet: everything that fails, except creations, new attributes, hard links, chunked writes *)
+Theorem C10_failed_call_is_quiet : forall bp ba sb h o,
+  let s := reach bp ba sb h in
+  is_session_op o = false -> op_fails s o -> may_leave_bytes bp ba o = false -> quiet_step s o.
+Proof. exact C10_failed_call_is_quiet_l. Qed.
+Print Assumptions C10_failed_call_is_quiet.
+
+(* without fix e5d916a, link pre-check the byte-identity clause does not extend to sessions with a
+   failing creation: the file grows *)
+Theorem C10_noop_refuted_failed_creation :
+  let s := reach false false 2 hist_sess1 in let sess := [OpReopen; OpMkGroup 0 1 false; OpClose] in
+  closed s = true /\ snd (step (fst (step s OpReopen)) (OpMkGroup 0 1 false)) = false /\
+  fsize (st s) < fsize (st (run s sess)) /\ objs (run s sess) = objs s.
+Proof. exact C10_noop_refuted_failed_creation_l. Qed.
+Print Assumptions C10_noop_refuted_failed_creation.
+
+(* with the pre-check the same kind of session is quiet (hence byte-identical by C10_noop_session) *)
+Theorem C10_failed_creation_quiet_with_precheck :
+  let s := reach true true 2 hist_sess1 in
+  all_quiet s (OpReopen :: [OpMkGroup 0 1 false; OpMkContig 0 1 false 12 1 8; OpHardLink 0 1 false 1] ++ [OpClose]).
+Proof. exact C10_failed_creation_quiet_with_precheck_l. Qed.
+Print Assumptions C10_failed_creation_quiet_with_precheck.
